@@ -1,1 +1,3 @@
+import Fadl.Lemmas.Mono
 import Fadl.Props.C17
+import Fadl.Props.C19
